@@ -42,6 +42,11 @@ END_POOL = [('b', 'b', 0), ('E1', 'E1', 0, 'end1'), ('a', 'a', 0), ('c', 'c', 1)
 # removal through the system's own clean_up() (op 'cleanup')
 # systems that run every second / third timestep among equals that run every timestep
 FREQ_POOL = [('a', 'a', 0), ('P2', 'P2', 0, 'freq2'), ('b', 'b', 0), ('Q3', 'Q3', 1, 'freq3'), ('c', 'c', 1)]
+# four systems of one priority behind / ahead of one of another (a remembered insertion point needs three in a row)
+FOUR_POOL = [('low', 'low', 1), ('x', 'x', 5), ('w', 'w', 5), ('y', 'y', 5), ('z', 'z', 5)]
+# several distinct priorities beyond 64 bits on either side
+HUGE_POOL = [('h1', 'h1', 2 ** 70), ('h2', 'h2', 2 ** 71), ('n1', 'n1', -2 ** 70), ('n2', 'n2', -2 ** 71), ('o', 'o', 0),
+             ('m', 'm', 2 ** 63)]
 REPRIO_POOL = [('a', 'a', 0), ('b', 'b', 0), ('c', 'c', 1), ('d', 'd', 1)]
 REPRIO = [['a', 2], ['a', 0], ['b', 1], ['b', -1]]
 BIG = 10 ** 6
@@ -171,7 +176,8 @@ class Harness:
             else:
                 o = Rec(key, sid, w.model, decode_prio(prio))
             w.objs[key] = o
-            w.prio[key] = int(o.priority)   # the collector's default is read off the real object: "default -1" is
+            w.prio[key] = int(o.priority) if prio is None else int(decode_prio(prio))
+            # the reference goes by the DECLARED priority (the collector's default is read off the real object: "default -1" is
             #                            asserted separately below
         w.win = {e[0]: window(e) for e in self.pool}
         w.freq = {e[0]: freq_of(e) for e in self.pool}
@@ -805,7 +811,7 @@ def _run(ctx):
     # the small pools first: a change that adds hidden state makes the big pools slow
     for name, pool, kw in (('own_ordering', LT_POOL, {'cleanup': True}), ('late_start', LATE_POOL, {}),
                            ('numbered_ids', INT_POOL, {'cleanup': True}), ('closing_windows', END_POOL, {}),
-                           ('frequencies', FREQ_POOL, {}),
+                           ('frequencies', FREQ_POOL, {}), ('four_equals', FOUR_POOL, {}), ('huge_priorities', HUGE_POOL, {}),
                            ('reassigned_priorities', REPRIO_POOL, {'cleanup': True, 'reprio': REPRIO})):
         hp = Harness(pool, **kw)
         r = hbfs.explore(ctx, hp, name, max_depth=40, procs=ctx.procs)
